@@ -3,6 +3,7 @@
   Property theorems only.  Model: `Model/Retry.lean`.
 -/
 import OrasModel.Model.Retry
+import OrasModel.Model.AuthBody
 import OrasModel.Gen.Facts
 namespace Oras.Props.C17
 open Oras
@@ -177,6 +178,132 @@ theorem c17_auth_resend (p : RetryPolicy) (body : BodyKind) (script : List Srv)
   | ctxErr => simpa [ho] using h1
   | notRewindable => simpa [ho] using h1
   | exhausted => simpa [ho] using h1
+
+/-! ### The auth client with its token cache: up to three sends per `Do` -/
+
+/-- **Every send of one `Client.Do` carries the whole body** — first send, cached-token
+    retry after a scope change, and the send after the token fetch — for every cache
+    state, request, credential, challenge sequence and body kind: no receiver ever sees a
+    truncated body. -/
+theorem c17_auth_cached_resend_full (c : ACache) (i : DoIn) (body : BodyKind) :
+    ∀ x ∈ (authFlowB c i body).1, x.2 ≠ .truncated := by
+  have hf : recvFirst body ≠ .truncated := by cases body <;> simp [recvFirst]
+  have ha : ∀ o : Out, ∀ x ∈ (if canRewind body then [(o, recvAgain body)] else []), x.2 ≠ Recv.truncated := by
+    intro o x hx
+    cases body <;> simp_all [canRewind, recvAgain]
+  have hr : canRewind body = true → recvAgain body ≠ .truncated := by
+    cases body <;> simp [canRewind, recvAgain]
+  intro x hx
+  unfold authFlowB at hx
+  cases h1 : i.r1 with
+  | final => simp only [h1, List.mem_singleton] at hx; rw [hx]; exact hf
+  | unknown => simp only [h1, List.mem_singleton] at hx; rw [hx]; exact hf
+  | basic =>
+    simp only [h1] at hx
+    split at hx
+    · rcases List.mem_cons.mp hx with h | h
+      · rw [h]; exact hf
+      · exact ha _ x h
+    · simp only [List.mem_singleton] at hx; rw [hx]; exact hf
+  | bearer realm key =>
+    simp only [h1] at hx
+    split at hx
+    · simp only [List.mem_singleton] at hx; rw [hx]; exact hf
+    · rename_i hcond
+      -- either no retry is made or the body can be rewound
+      have hretry : ∀ y ∈ (retryAttempt c i (firstAttempt c i).2 key).1.map (fun o => (o, recvAgain body)),
+          y.2 ≠ Recv.truncated := by
+        intro y hy
+        obtain ⟨o, ho, rfl⟩ := List.mem_map.mp hy
+        have hne : (retryAttempt c i (firstAttempt c i).2 key).1.isEmpty = false := by
+          cases hl : (retryAttempt c i (firstAttempt c i).2 key).1 with
+          | nil => rw [hl] at ho; cases ho
+          | cons _ _ => rfl
+        have hc : canRewind body = true := by
+          cases hcr : canRewind body with
+          | true => rfl
+          | false => simp [hne, hcr] at hcond
+        exact hr hc
+      split at hx
+      · rcases List.mem_cons.mp hx with h | h
+        · rw [h]; exact hf
+        · exact hretry x h
+      · split at hx
+        · rcases List.mem_cons.mp hx with h | h
+          · rw [h]; exact hf
+          · rcases List.mem_append.mp h with h | h
+            · exact hretry x h
+            · exact ha _ x h
+        · split at hx
+          · rcases List.mem_cons.mp hx with h | h
+            · rw [h]; exact hf
+            · rcases List.mem_append.mp h with h | h
+              · exact hretry x h
+              · simp only [List.mem_singleton] at h; rw [h]; simp
+          · rcases List.mem_cons.mp hx with h | h
+            · rw [h]; exact hf
+            · rcases List.mem_append.mp h with h | h
+              · rcases List.mem_append.mp h with h | h
+                · exact hretry x h
+                · simp only [List.mem_singleton] at h; rw [h]; simp
+              · exact ha _ x h
+
+/-- **A body that cannot be replayed is sent to the registry once**: with a one-shot body
+    `Do` makes no second registry send, whatever the cache holds. -/
+theorem c17_auth_oneshot_single_send (c : ACache) (i : DoIn) :
+    ((authFlowB c i .oneshot).1.filter (fun x => x.1.kind == .registry)).length ≤ 1 := by
+  unfold authFlowB
+  cases h1 : i.r1 with
+  | final => simp
+  | unknown => simp
+  | basic => simp only [canRewind]; split <;> simp
+  | bearer realm key =>
+    simp only [canRewind, Bool.not_false, Bool.and_true, Bool.false_eq_true, if_false, List.append_nil]
+    split
+    · simp
+    · rename_i hcond
+      have hnil : (retryAttempt c i (firstAttempt c i).2 key).1 = [] := by
+        cases hl : (retryAttempt c i (firstAttempt c i).2 key).1 with
+        | nil => rfl
+        | cons _ _ => simp [hl] at hcond
+      have h2 : (retryAttempt c i (firstAttempt c i).2 key).2 = false := by
+        unfold retryAttempt at hnil ⊢
+        by_cases hk : some key ≠ (firstAttempt c i).2
+        · rw [if_pos hk] at hnil ⊢
+          cases hg : c.getToken i.host .bearer key with
+          | none => rfl
+          | some t => rw [hg] at hnil; simp at hnil
+        · rw [if_neg hk]
+      simp only [hnil, h2, List.map_nil, Bool.false_eq_true, if_false, List.nil_append]
+      split
+      · simp
+      · split <;> simp
+
+/-- With a body that can be replayed (or none) the sends are exactly those of the flow the
+    C16 theorems are about, and the cache ends up the same. -/
+theorem c17_authFlowB_erases (c : ACache) (i : DoIn) (body : BodyKind) (hb : body ≠ .oneshot) :
+    (authFlowB c i body).1.map (·.1) = (authFlow c i).1 ∧ (authFlowB c i body).2 = (authFlow c i).2 := by
+  have hc : canRewind body = true := by cases body <;> simp_all [canRewind]
+  unfold authFlowB authFlow
+  cases h1 : i.r1 with
+  | final => simp
+  | unknown => simp
+  | basic => simp only [hc, if_true]; split <;> simp
+  | bearer realm key =>
+    simp only [hc, Bool.not_true, Bool.and_false, Bool.false_eq_true, if_false, if_true]
+    split
+    · simp [List.map_map, Function.comp_def]
+    · split
+      · simp [List.map_map, Function.comp_def]
+      · cases hfo : i.fetchOk <;> simp [List.map_map, Function.comp_def]
+
+/-- Non-vacuity: a cached bearer token under a changed scope key gives three registry
+    sends and one token fetch, each registry send with the whole body. -/
+example :
+    let c : ACache := [(1, ⟨.bearer, [(7, .tok 1 3)]⟩)]
+    let i : DoIn := ⟨1, 0, ⟨true, false, false⟩, false, .bearer 9 7, .bearer 9 7, some 4⟩
+    (authFlowB c i .replay).1.map (·.2) = [.full, .full, .none, .full] := by
+  decide
 
 /-- **The backoff is total** (repair of F11): with the guard the jitter term is defined for
     every range; without it, a zero or negative range (jitter 0, or overflow at large
